@@ -59,8 +59,8 @@ def gen(tier, rng):
                               "widths": widths,
                               "echo": {"pt": pt, "what": what, "cpu": cpu, "variant": variant, "api": api, "grp": grp}})
     # B. 16-bit: lattice^2 and seeded pairs in images of lane-covering widths
-    ngroups = 4 if tier == "quick" else 24
-    npix = 192 if tier == "quick" else 640
+    ngroups = 4 if tier == "quick" else 96
+    npix = 192 if tier == "quick" else 1600
     lat_pairs = [(c, a) for c in L16 for a in L16]
     for pt in ("U16x2", "U16x4"):
         nc = ALPHA_PT[pt][0]
